@@ -142,7 +142,7 @@ class World:
         self.atoms = {
             "element": Fe, "element2": O, "H": H,
             "isotope": Fe56, "H1": H1, "DT": D,
-            "ion_element": w.ion(Fe, 2), "ion_isotope": w.ion(Fe56, 3), "ion_DT": w.ion(D, 1),
+            "ion_element": w.ion(Fe, 2), "ion_isotope": w.ion(Fe56, 3), "ion_DT": w.ion(D, 1), "anion": w.ion(Fe, -2),
         }
         return self.atoms
 
